@@ -15,6 +15,7 @@ import (
 	"github.com/criyle/go-sandbox/container"
 	"github.com/criyle/go-sandbox/pkg/mount"
 	"github.com/criyle/go-sandbox/ptracer"
+	"github.com/criyle/go-sandbox/runner"
 )
 
 func init() { props["C17"] = runC17 }
@@ -178,7 +179,7 @@ func c17Lines(out string) string {
 }
 
 func runC17(res *Result, d *Driver, tier string, seed uint64) {
-	res.Rule = "each workload — a ptrace run (file-tracing filter, handler that bans or allows by run), a namespace run (new pid/user/mount namespaces), a container run in its own environment, and Execve / Open+Delete / Ping calls of several callers on ONE shared environment — is first run alone; then rounds of 16 goroutines run a random mix concurrently and every result (status, exit code, error text, the program's own report of its descriptor table, pid, output, side effects) must equal the solo result, the program's descriptors 1/2 must be its own pipe (no two concurrent programs may see the same one, none may see a foreign descriptor). thorough tier also runs the rounds under the Go race detector. non-trivial = every concurrent run; distinct = (round, slot)."
+	res.Rule = "each workload — a ptrace run (file-tracing filter, handler that bans or allows by run), a namespace run (new pid/user/mount namespaces), a container run in its own environment, and Execve / Open+Delete / Ping calls of several callers on ONE shared environment — is first run alone; then rounds of 16 goroutines run a random mix concurrently and every result (status, exit code, error text, the program's own report of its descriptor table, pid, output, side effects) must equal the solo result, the program's descriptors 1/2 must be its own pipe (no two concurrent programs may see the same one, none may see a foreign descriptor). a call queued on a shared environment while the previous run (with a 1 GiB descendant) is being torn down must get its own result. thorough tier also runs the rounds under the Go race detector. non-trivial = every concurrent run; distinct = (round, slot)."
 	rng := NewRng(seed, "C17", 1)
 	var st syscall.Stat_t
 	syscall.Stat("/dev/null", &st)
@@ -291,6 +292,45 @@ func runC17(res *Result, d *Driver, tier string, seed uint64) {
 	sort.Strings(ks)
 	if len(ks) > 0 {
 		res.Sample(ks[0])
+	}
+	// two callers on ONE environment, the second call issued while the first run is being torn down (its descendant is
+	// large and slow to die): the second run's result is its own
+	{
+		nb := 3
+		if tier == "thorough" {
+			nb = 40
+		}
+		env, err := newEnv(container.Builder{})
+		if err != nil {
+			fatal("container: %v", err)
+		}
+		for i := 0; i < nb; i++ {
+			started := make(chan struct{})
+			var r1, r2 runner.Result
+			var wg sync.WaitGroup
+			wg.Add(2)
+			go func() {
+				defer wg.Done()
+				r1, _ = env.runProbe(RunSpec{Script: "fork;mem 1024;sleep 30000;endfork;sleep 700;exit 0", Timeout: 60 * time.Second, SyncFunc: func(int) error { close(started); return nil }}, false)
+			}()
+			go func() {
+				defer wg.Done()
+				<-started
+				r2, _ = env.runProbe(RunSpec{Script: "exit 7", Timeout: 60 * time.Second}, false)
+			}()
+			wg.Wait()
+			res.Case("teardown-overlap "+itoa(i), true, "shared-teardown-overlap")
+			res.Traces++
+			if r1.Status != runner.StatusNormal || r2.Status != runner.StatusNonzeroExitStatus || r2.ExitStatus != 7 {
+				res.Mismatch(Mismatch{Kind: "oracle", What: "a call on a shared environment issued while the previous run is torn down gets its own result (C17)", Input: "caller 1: `fork;mem 1024;sleep 30000;endfork;sleep 700;exit 0`; caller 2 (queued as soon as caller 1's program started): `exit 7`",
+					Impl: fmt.Sprintf("caller 1: %v %d %q; caller 2: %v %d %q", r1.Status, r1.ExitStatus, r1.Error, r2.Status, r2.ExitStatus, r2.Error), Model: "caller 1: Normal; caller 2: Nonzero Exit Status 7", Oracle: "violates"})
+				env.Close()
+				if env, err = newEnv(container.Builder{}); err != nil {
+					fatal("container: %v", err)
+				}
+			}
+		}
+		env.Close()
 	}
 	// descriptors of the harness process itself must not grow with the rounds (a leaked descriptor is another run's descriptor tomorrow)
 	ents, _ := os.ReadDir("/proc/self/fd")
